@@ -126,7 +126,10 @@ type c01Case struct {
 	LStrip  bool              `json:"lstrip"`
 	Globals bool              `json:"globals"`
 	Raw     []byte            `json:"raw,omitempty"` // layer (a): the entry source as raw bytes
+	Route   string            `json:"route,omitempty"` // entry point of the set used to compile; "" = FromFile
 }
+
+var c01Routes = []string{"FromFile", "FromCache", "FromString", "FromBytes", "RenderTemplateFile", "RenderTemplateString", "RenderTemplateBytes", "ExecuteBlocks"}
 
 var c01TokRe = regexp.MustCompile(`\{\{-?|-?\}\}|\{%-?|-?%\}|\{#|#\}|"(?:[^"\\]|\\.)*"|'[^']*'|[A-Za-z_][A-Za-z_0-9]*|[0-9]+|\s+|.`)
 
@@ -193,7 +196,36 @@ func c01Run(cs *c01Case) (msg string, compiled, executed bool) {
 		}
 		ctx = pongo2.Context{"name": "ctx-over-global"}
 	}
-	tpl, err := set.FromFile(cs.Entry)
+	var tpl *pongo2.Template
+	var err error
+	switch cs.Route {
+	case "RenderTemplateFile", "RenderTemplateString", "RenderTemplateBytes":
+		// compile and execute in one call: output or error, never a panic
+		var out string
+		switch cs.Route {
+		case "RenderTemplateFile":
+			out, err = set.RenderTemplateFile(cs.Entry, ctx)
+		case "RenderTemplateString":
+			out, err = set.RenderTemplateString(src, ctx)
+		default:
+			out, err = set.RenderTemplateBytes([]byte(src), ctx)
+		}
+		if err != nil && out != "" {
+			return fmt.Sprintf("%s returned both output %q and error %v\n src=%q", cs.Route, out, err, src), true, true
+		}
+		if err != nil {
+			_ = err.Error()
+		}
+		return "", true, err == nil
+	case "FromCache":
+		tpl, err = set.FromCache(cs.Entry)
+	case "FromString":
+		tpl, err = set.FromString(src)
+	case "FromBytes":
+		tpl, err = set.FromBytes([]byte(src))
+	default:
+		tpl, err = set.FromFile(cs.Entry)
+	}
 	if (tpl == nil) == (err == nil) {
 		return fmt.Sprintf("compile returned tpl=%v err=%v (exactly one must be non-nil)\n src=%q", tpl, err, src), false, false
 	}
@@ -213,6 +245,10 @@ func c01Run(cs *c01Case) (msg string, compiled, executed bool) {
 	}
 	// a second entry point, for the buffering paths
 	_ = tpl.ExecuteWriterUnbuffered(c01Universe(cs.Variant), &plainWriter{})
+	if cs.Route == "ExecuteBlocks" {
+		_, _ = tpl.ExecuteBlocks(c01Universe(cs.Variant), []string{"content", "side", "nosuchblock", ""})
+		_, _ = tpl.ExecuteBlocks(nil, nil)
+	}
 	return "", true, xerr == nil
 }
 
@@ -451,13 +487,16 @@ func genC01(t *rapid.T) *c01Case {
 		}
 		cs.Files["/root.tpl"] = sb.String()
 	}
+	if drawInt(t, 0, 2, "otherroute") == 0 {
+		cs.Route = pick(t, "route", c01Routes)
+	}
 	return cs
 }
 
 var _ = register(&propSpec{
 	ID:    "C01.total",
 	Journ: true,
-	Rule:  "three layers against a set whose loader serves an acyclic library of helper files: grammar programs over every registered tag / filter (registry hook) and operator with error-prone constructs and the full value universe as context (nil, strings incl. invalid UTF-8 / NUL, every int/uint width incl. extremes, floats incl. NaN/Inf/-0/subnormal, bools, slices, arrays by value and pointer incl. empty, maps with string/int/uint8/any/bool/float/struct keys incl. nil map, structs with exported/unexported/embedded/pointer/chan/func fields, nil pointers, pointer to pointer, Stringers, time, *Value safe/unsafe/nil, funcs of every accepted and several unaccepted shapes incl. nil func, chan, complex, error, uintptr) - also installed as Globals; a crude grammar mixing path steps, subscripts, calls and filters freely; random lexeme soup; each optionally with 1-3 token-level mutations (delete, duplicate, swap, replace, insert from the lexeme vocabulary). Oracle: compile returns exactly one of (template, *Error); Execute returns; no panic; the worker survives (journal); no case exceeds the 30 s hang bound. Non-trivial: the source compiled (so execution ran); distinct by source+configuration.",
+	Rule:  "three layers against a set whose loader serves an acyclic library of helper files: grammar programs over every registered tag / filter (registry hook) and operator with error-prone constructs and the full value universe as context (nil, strings incl. invalid UTF-8 / NUL, every int/uint width incl. extremes, floats incl. NaN/Inf/-0/subnormal, bools, slices, arrays by value and pointer incl. empty, maps with string/int/uint8/any/bool/float/struct keys incl. nil map, structs with exported/unexported/embedded/pointer/chan/func fields, nil pointers, pointer to pointer, Stringers, time, *Value safe/unsafe/nil, funcs of every accepted and several unaccepted shapes incl. nil func, chan, complex, error, uintptr) - also installed as Globals; a crude grammar mixing path steps, subscripts, calls and filters freely; random lexeme soup; each optionally with 1-3 token-level mutations (delete, duplicate, swap, replace, insert from the lexeme vocabulary). Compiled through FromFile (2/3) or another entry point of the set (FromCache, FromString, FromBytes, RenderTemplateFile/String/Bytes, plus ExecuteBlocks). Oracle: compile returns exactly one of (template, *Error); Execute / Render* return output or an error; no panic; the worker survives (journal); no case exceeds the 30 s hang bound. Non-trivial: the source compiled (so execution ran); distinct by source+configuration.",
 	Gen:   func(t *rapid.T) any { return genC01(t) },
 	New:   func() any { return &c01Case{} },
 	Check: checkC01,
@@ -499,6 +538,9 @@ func FuzzC01(f *testing.F) {
 		files["/base.tpl"] = "BASE[{% block content %}base{% endblock %}]"
 		files["/root.tpl"] = ""
 		c := &c01Case{Files: files, Entry: "/root.tpl", Raw: src, Variant: int(sel % 12), Trim: sel&16 != 0, LStrip: sel&32 != 0, Globals: sel&64 != 0}
+		if sel&128 != 0 {
+			c.Route = c01Routes[int(sel>>8)%len(c01Routes)]
+		}
 		if err := evalCase(s, c, rec); err != nil {
 			p := writeReplay(s, c, err.Error())
 			t.Fatalf("VERIF-VIOLATION property=C01 spec=C01.total replay=%s: %v", p, err)
